@@ -339,6 +339,6 @@ impl StepHook for C05Hook {
 }
 
 pub fn run_case(case: &Case, stats: &mut Stats, hook: &mut C05Hook) -> Outcome {
-    let opts = RunOpts { cfg: case.cfg, garbage_seed: case.garbage_seed, shadow: false, oracles: OracleSet::None, want_text: false };
+    let opts = RunOpts { cfg: case.cfg, garbage_seed: case.garbage_seed, shadow: false, oracles: OracleSet::None, want_text: false, cmp_oracle: true };
     run_ops(&case.ops, &opts, stats, hook)
 }
